@@ -214,7 +214,10 @@ pub fn run_history(tape: &mut Tape, hp: &HistParams, detail: bool) -> HistReport
             fs.mkdir_all(&phys);
             let tag = next_tag;
             next_tag += 1;
-            let mtime = fs.now - 3_600_000_000_000 - (tape.draw(1000) as i64) * 1_000_000_007;
+            // entries of read-only roots may carry an mtime from a host whose
+            // clock runs ahead
+            let future = ro_roots.contains(&di) && tape.draw(4) == 3;
+            let mtime = if future { fs.now + 600_000_000_000 + (tape.draw(3000) as i64) * 1_000_000_007 } else { fs.now - 3_600_000_000_000 - (tape.draw(1000) as i64) * 1_000_000_007 };
             let marked = tape.draw(2) == 1;
             let atime = if marked { mtime + (tape.draw(3) as i64) * 1_000_000_000 } else { mtime - 120_000_000_000 };
             fs.plant_file(&format!("{}/{}", phys, key.name), &make_value(&key.name, tag, 5), 0o444, atime, mtime);
@@ -289,6 +292,7 @@ pub fn run_history(tape: &mut Tape, hp: &HistParams, detail: bool) -> HistReport
     }
     scenario.push(format!("trigger policies: {:?}", policies));
     let handles: Vec<Vec<Handle>> = hspecs.iter().map(|hs| hs.iter().map(|s| w.build(s)).collect()).collect();
+    let start_now = w.with_fs(|fs| fs.now);
     let ro_before: Vec<_> = ro_roots.iter().map(|r| w.with_fs(|fs| fs.tree(&dirs[*r].path))).collect();
 
     // ---------------------------------------------------------- the history
@@ -757,7 +761,7 @@ pub fn run_history(tape: &mut Tape, hp: &HistParams, detail: bool) -> HistReport
             continue;
         }
         for (b, a) in before.iter().zip(after.iter()) {
-            let same = b.0 == a.0 && b.1.ino == a.1.ino && b.1.mode == a.1.mode && b.1.nlink == a.1.nlink && b.1.size == a.1.size && b.1.mtime == a.1.mtime && b.2 == a.2 && a.1.atime >= b.1.atime;
+            let same = b.0 == a.0 && b.1.ino == a.1.ino && b.1.mode == a.1.mode && b.1.nlink == a.1.nlink && b.1.size == a.1.size && b.1.mtime == a.1.mtime && b.2 == a.2 && (a.1.atime >= b.1.atime || b.1.mtime > start_now);
             if !same {
                 findings.push(Finding { prop: "ro", v: Violation::new("readonly-snapshot", format!("read-only root entry changed: {:?} -> {:?}", (&b.0, &b.1), (&a.0, &a.1))) });
                 break;
